@@ -590,6 +590,15 @@ def past_end(rng, ln):
     return rng.choice([ln + 1, ln + 2, ln + 10, 99, 1000])
 
 
+def neg_indices(ln):
+    return sorted({-1, -2, -ln, -ln - 1, -99} - {0})
+
+
+def neg_index(rng, ln):
+    """A negative insertion index for a list of length ln (l[i:i] = pieces with list.insert's clamping)."""
+    return rng.choice(neg_indices(ln))
+
+
 def gen_op(rng, soup, docs=0.0):
     """One op on the current tree. Mostly ops that succeed, with a share (~10%) of ops the
     implementation refuses (insertion into a plain command, `.string` of a node that has
@@ -606,6 +615,8 @@ def gen_op(rng, soup, docs=0.0):
             return 'app %s %s' % (c, gen_mats(rng, docs=docs))
         if rng.random() < 0.15:                         # beyond the end, mostly with several pieces
             return 'ins %s %d %s' % (c, past_end(rng, ln), gen_mats(rng, 2 if rng.random() < 0.7 else 1, 3, docs=docs))
+        if rng.random() < 0.2:                          # negative: counted from the end, clamped at the front
+            return 'ins %s %d %s' % (c, neg_index(rng, ln), gen_mats(rng, 2 if rng.random() < 0.7 else 1, 3, docs=docs))
         return 'ins %s %d %s' % (c, rng.randint(0, ln), gen_mats(rng, docs=docs))
     if kind == 'del':
         return 'del ' + show_path(rng.choice(targets)[0])
@@ -654,7 +665,7 @@ BFS_MATS = ['n:' + enc('\\x'), 's:' + enc('s') + ',n:' + enc('{g}')]
 
 def alphabet(soup):
     """Every op of a finite alphabet applicable to the current tree: every non-root node as
-    target, every insertion index 0..len (and len+1) of every container."""
+    target, every insertion index 0..len (and len+1, and -1 with two pieces) of every container."""
     from TexSoup import data as D
     targets, containers = enum_tree(soup)
     ops = []
@@ -675,6 +686,7 @@ def alphabet(soup):
         for i in range(ln + 2):
             for m in BFS_MATS:
                 ops.append('ins %s %d %s' % (c, i, m))
+        ops.append('ins %s -1 %s' % (c, BFS_MATS[1]))
         ops.append('app %s %s' % (c, BFS_MATS[1]))
     return ops
 
@@ -886,13 +898,19 @@ def span_of(soup, path):
     return k, len(str(x))
 
 
+def py_insert_index(n, i):
+    """Where list.insert(i, x) puts x in a list of length n (a negative index counts from the
+    end, everything is clamped into 0..n); several pieces go there in order: l[i:i] = pieces."""
+    return max(0, n + i) if i < 0 else min(i, n)
+
+
 def ins_point(soup, cpath, i):
-    """Offset in str(soup) of insertion index i (clamped to the length, as list.insert does)
-    of the contents of the container at `cpath`."""
+    """Offset in str(soup) of insertion index i (resolved as list.insert does, negative
+    indices included) of the contents of the container at `cpath`."""
     k, c, _, _ = locate(soup, cpath)
     if _is_text(c):
         raise BadPath(show_path(cpath))
-    return k + open_len(c) + sum(len(str(x)) for x in c._contents[:min(i, len(c._contents))])
+    return k + open_len(c) + sum(len(str(x)) for x in c._contents[:py_insert_index(len(c._contents), i)])
 
 
 def refuses_contents(e):
@@ -1119,9 +1137,7 @@ def resolve(soup, P):
         if refuses_contents(x):
             return ('refuse', 'command without contents')
         n = len(x._contents)
-        i = n if k == 'app' else min(P.index, n)
-        if P.index is not None and P.index < 0:
-            return ('skip', 'negative index')
+        i = n if k == 'app' else py_insert_index(n, P.index)
         at = off + open_len(x) + sum(len(str(c)) for c in x._contents[:i])
         return ('splice', [(at, 0, P.mat_text())],
                 {'kind': 'list', 'q': list(P.path), 'h': ('b',), 's': i, 'd': 0, 'new': P.mat_exprs()})
